@@ -730,6 +730,17 @@ def gen_cmp(r, D, dim, err):
             else:
                 n = {"t": "N", "v": r.choice([1, -1]) * 10 ** r.choice([309, 400, 1000]), "py": True}
             return {"t": "cmp", "op": op, "l": a, "r": n} if r.random() < 0.6 else {"t": "cmp", "op": op, "l": n, "r": a}
+        if r.random() < 0.12:
+            # magnitudes at the ends of the double range, both operands written in the same units: nothing has to be converted,
+            # so nothing can overflow or vanish - 1.8e308 km and 9e307 km are two different lengths
+            a = dict(a)
+            big = r.random() < 0.5
+            a["v"] = r.choice([1, -1]) * (r.uniform(1, 1.7) * 10.0 ** r.randint(300, 307) if big else r.choice([5e-324, 1e-323, 3e-320, r.uniform(1, 9) * 10.0 ** r.randint(-322, -305)]))
+            v2e = a["v"] * r.choice([1.0, 0.5, 2.0 if not big else 0.25, 1.0 + 2.0 ** -30])
+            if v2e == 0.0 or v2e in (float("inf"), float("-inf")):
+                v2e = a["v"]
+            b = {"t": "V", "v": v2e, "sys": a["sys"], "dim": a["dim"]} if r.random() < 0.7 else {"t": "N", "v": v2e}
+            return {"t": "cmp", "op": op, "l": a, "r": b} if r.random() < 0.5 else {"t": "cmp", "op": op, "l": b, "r": a}
         z = r.random()
         v2 = a["v"] if z < 0.6 else (a["v"] * (1 + 2.0 ** -r.randint(20, 50)) if z < 0.8 else -a["v"])
         w = r.random()
@@ -897,7 +908,8 @@ def judge(U, tree):
     except Skip as e:
         c("skipped_ill_conditioned")
         return {"outcome": "skip", "counts": counts, "bad": bad, "ref": ref, "info": {"skip": str(e)}}
-    if not ref.in_range():
+    same_units_cmp = isinstance(want, tuple) and want[0] == "cmp" and want[2]      # two operands written in the same units: nothing is converted
+    if not ref.in_range() and not same_units_cmp:
         c("skipped_float_range")
         return {"outcome": "skip", "counts": counts, "bad": bad, "ref": ref, "info": {"skip": "float range"}}
     got = raised = None
